@@ -19,7 +19,7 @@ const STUB: [&str; 4] = [
 ];
 
 pub fn all() -> Vec<Property> {
-    vec![c01(), c02(), c06(), c07(), c08(), c09(), c10(), c11(), c12(), c13(), c14(), c15(), c16(), c17(), c18()]
+    vec![c01(), c02(), c06(), c07(), c08(), c09(), c10(), c11(), c12(), c13(), c14(), c15(), c16(), c17(), c18(), c19()]
 }
 
 fn c06() -> Property {
@@ -218,6 +218,49 @@ fn c18() -> Property {
         real_components: REAL.to_vec(),
         stub_components: STUB.to_vec(),
         expected_probes: vec!["declared", "posted", "posted-multi-frame", "isolation-checked", "commit-checked", "rollback-checked", "history-checked", "unknown-id-refused", "second-discharge-refused", "dead-transaction-post-refused", "fresh-ids-checked", "controller-wire-checked", "discharge-rejection-reported", "declare-rejection-reported"],
+    }
+}
+
+fn c19() -> Property {
+    Property {
+        id: "C19",
+        level: "exploration",
+        variants: vec![
+            Variant {
+                name: "scripted-client-vs-listener",
+                weight: 2,
+                make: || Box::pin(scen::c19::run_scripted_client()),
+                max_steps: 3_000_000,
+                cases_per_seed: 1,
+                note: "scripted SASL client (honest and 16 dishonest behaviours) <-> real listener with PLAIN or SCRAM-SHA-1/256/512",
+            },
+            Variant {
+                name: "client-vs-scripted-server",
+                weight: 2,
+                make: || Box::pin(scen::c19::run_scripted_server()),
+                max_steps: 3_000_000,
+                cases_per_seed: 1,
+                note: "real client with a PLAIN or SCRAM profile <-> scripted SASL server (honest and 11 dishonest behaviours)",
+            },
+            Variant {
+                name: "client-listener-pair",
+                weight: 1,
+                make: || Box::pin(scen::c19::run_pair()),
+                max_steps: 3_000_000,
+                cases_per_seed: 1,
+                note: "real client <-> real listener, equal or differing credentials and mechanisms, SASL skipped",
+            },
+        ],
+        quick_runs: 3_000,
+        thorough_runs: 200_000,
+        rule: "one run = one mechanism out of four x one behaviour of the scripted party (client: honest, wrong password in six ways, wrong user, no / malformed / empty initial response, response before init, server frames from the client, AMQP header instead of the SASL header, AMQP frame during SASL, premature AMQP header, other mechanism name, tampered proof, proof over another nonce, missing proof, nonce not echoed, second response after a failure; server: honest, outcome codes 1-4 and out-of-range, nonce not extending the client's, wrong / other-password / other-salt signature, no additional data, ok before the challenge, extra challenge, bad iteration count, mechanism not offered, garbage challenge) with seeded parameters, or one real pair with seeded credential and mechanism mismatches; seeded network behaviour and schedule; every run is non-trivial; distinct = distinct event-log hash",
+        assumptions: vec![
+            "the harness's own SCRAM arithmetic (HMAC, PBKDF2, message construction over the sha1/sha2 digest crates) is the reference for proofs and signatures; the honest runs cross-check it against the crate in both directions",
+            "a PLAIN response with a non-empty authorization identity or extra NUL-separated fields is not generated (its validity is not defined by the property)",
+        ],
+        real_components: REAL.to_vec(),
+        stub_components: STUB.to_vec(),
+        expected_probes: vec!["honest-client-accepted", "dishonest-client-refused", "honest-server-accepted", "dishonest-server-refused", "valid-credentials-connected", "invalid-credentials-refused-on-both-sides"],
     }
 }
 
